@@ -474,11 +474,18 @@ fn stage_c_chains(ctx: &Ctx, q: u8, rep: &mut Report) {
         let flavour = [Flavour::Sor(0), Flavour::Sor(1), Flavour::StdPlus][ci % 3];
         let intra = ci % 2 == 1;
         let n = ch.len();
-        let mk_cfg = |quant: u8, tr: u8| PicCfg { flavour, w: 16 * n, h: 16, quant, tr, wide_levels: false, stuffing_pct: 0, pei: 0, deblock_flag: false, prefer_fixed_size_code: false, force16: false };
+        // the macroblocks sit side by side in one row, or one below the other (one macroblock row each: in
+        // standard streams every row is a group of blocks, and the quantiser carries over from group to group)
+        let column = ci % 4 >= 2;
+        let (pw, ph) = if column { (16, 16 * n) } else { (16 * n, 16) };
+        if column {
+            rep.count("C:dquant_chains_down_a_column");
+        }
+        let mk_cfg = |quant: u8, tr: u8| PicCfg { flavour, w: pw, h: ph, quant, tr, wide_levels: false, stuffing_pct: 0, pei: 0, deblock_flag: false, prefer_fixed_size_code: false, force16: false };
         let refpic = {
             let hdr = make_header(&mk_cfg(8, 0), 0, &mut rng);
             let mbs = (0..n).map(|_| SymMb::Coded { kind: MbKind::Intra, dquant: 1, mvd: [[0; 2]; 4], blocks: std::array::from_fn(|_| SymBlock { intradc: Some(127), events: vec![] }) }).collect();
-            SymPicture { hdr, w: 16 * n, h: 16, mbs, stuffing: vec![] }
+            SymPicture { hdr, w: pw, h: ph, mbs, stuffing: vec![] }
         };
         let hdr = make_header(&mk_cfg(q, 1), if intra { 0 } else { 1 }, &mut rng);
         let mbs: Vec<SymMb> = ch
@@ -496,7 +503,7 @@ fn stage_c_chains(ctx: &Ctx, q: u8, rep: &mut Report) {
         if !stuffing.is_empty() {
             rep.count("C:dquant_chains_with_stuffing");
         }
-        let pic = SymPicture { hdr, w: 16 * n, h: 16, mbs, stuffing };
+        let pic = SymPicture { hdr, w: pw, h: ph, mbs, stuffing };
         let bytes = pic.encode();
         rep.evaluations += 1;
         let mut dec = Dec::new(flavour.sorenson(), false);
@@ -662,6 +669,7 @@ pub fn run(ctx: &Ctx) -> (Report, String) {
         rep.require("C:dquant_on_empty_macroblock", 31 * 4 * 2);
         rep.require("C:dquant_chains", 31 * 80);
         rep.require("C:dquant_chains_with_stuffing", 31 * 20);
+        rep.require("C:dquant_chains_down_a_column", 31 * 30);
         rep.require("C:dquant_chains_leaving_a_clamp", 100);
         rep.require("C:version_mix:variant0", 31 * 18);
         rep.require("C:version_mix:variant1", 31 * 18);
